@@ -156,6 +156,10 @@ func runHist(sl *slot, h hist, ks consts) (out result) {
 				count("call:" + e)
 			}
 			count("result:" + strings.Trim(strings.SplitN(res, " ", 2)[0], "()"))
+			for _, sh := range w.createShapes {
+				count("create-answer:" + sh)
+			}
+			w.createShapes = nil
 			if nc := w.claim(); nc != nil {
 				rr, _ := w.condR(nc)
 				count("cond:" + w.condL(nc) + "/" + rr + "/" + w.condI(nc))
@@ -253,11 +257,11 @@ func singleFaults() []plan {
 	var out []plan
 	for kind := 1; kind <= 3; kind++ {
 		out = append(out,
-			plan{Fin: kind}, plan{Create: 1, DelLaunch: kind}, plan{NPatchReg: kind}, plan{PoolReg: kind}, plan{NPatchInit: kind},
+			plan{Fin: kind}, plan{Create: 1, DelLaunch: kind}, plan{Create: 5, DelLaunch: kind}, plan{Create: 8, DelLaunch: kind}, plan{NPatchReg: kind}, plan{PoolReg: kind}, plan{NPatchInit: kind},
 			plan{PoolLive1: kind}, plan{DelLive1: kind}, plan{PoolLive2: kind}, plan{DelLive2: kind}, plan{Patch: kind}, plan{Status: kind},
 			plan{Term: kind}, plan{Unfin: kind})
 	}
-	for cr := 1; cr <= 4; cr++ {
+	for cr := 1; cr < len(createShapes); cr++ {
 		out = append(out, plan{Create: cr})
 	}
 	out = append(out, plan{ListReg: true}, plan{ListInit: true}, plan{PDelErr: true},
@@ -310,6 +314,10 @@ func scripts(k cfgT, ks consts) map[string][]opT {
 	m["both-timeouts"] = append([]opT{rec(plan{Create: 3}), op("Sync"), tick(rt), rec(plan{Create: 4})}, tail...)
 	m["capacity"] = append([]opT{rec(plan{Create: 1})}, tail...)
 	m["nodeclass-not-ready"] = append([]opT{rec(plan{Create: 2})}, tail...)
+	// the shapes real providers produce: the capacity error sits inside a CreateError / an fmt.Errorf wrapper
+	for i := 5; i < len(createShapes); i++ {
+		m["create-error-shape-"+createShapes[i]] = append([]opT{rec(plan{Create: i}), op("Sync"), rec(plan{Create: i})}, tail...)
+	}
 	m["duplicate-node"] = append([]opT{rec(okPlan), op("Sync"), opb("NodeAppear", true), op("DupAppear"), rec(okPlan), op("Sync"), tick(rt), rec(okPlan), op("DupVanish")}, tail...)
 	m["no-unregistered-taint"] = append([]opT{rec(okPlan), op("Sync"), opb("NodeAppear", false), opb("NReady", true), opb("NExt", true), op("NStartupOff"), rec(okPlan)}, tail...)
 	m["ephemeral-taint"] = append(append(happy(k)[:len(happy(k))-3], opb("NEph", true), rec(okPlan), op("Sync"), opb("NEph", false), op("NStartupOff")), tail...)
@@ -581,7 +589,7 @@ func faultScripts(k cfgT, ks consts, thorough bool) [][]opT {
 		return sortedScripts(m)
 	}
 	var out [][]opT
-	for _, n := range []string{"happy", "launch-timeout@+0", "registration-timeout@+0", "both-timeouts", "capacity", "terminate", "duplicate-node"} {
+	for _, n := range []string{"happy", "launch-timeout@+0", "registration-timeout@+0", "both-timeouts", "capacity", "create-error-shape-CWI", "terminate", "duplicate-node"} {
 		out = append(out, m[n])
 	}
 	return out
